@@ -12,6 +12,7 @@ class ConfidenceLevel(object):
     """
 
     def __init__(self, n_dimensions=1, cl=None, sigma=None, delta_nll=None):
+        self._given = None  # which of cl / sigma was specified last: the other one is derived from it for the current number of dimensions
         self.ndim = n_dimensions
         _num_spec_not_none = 0
         if cl is not None:
@@ -54,6 +55,7 @@ class ConfidenceLevel(object):
             raise ValueError("Confidence level must be greater than 0 and less than 1. Got: %g" % (new_cl,))
         self._cl = float(new_cl)
         self._sigma = None
+        self._given = "cl"
 
     @property
     def sigma(self) -> float:
@@ -67,6 +69,7 @@ class ConfidenceLevel(object):
             raise ValueError("Sigma value must be greater than 0! Got: %g" % (new_sigma,))
         self._sigma = float(new_sigma)
         self._cl = None
+        self._given = "sigma"
 
     @property
     def delta_nll(self) -> float:
@@ -89,6 +92,11 @@ class ConfidenceLevel(object):
         if new_ndim <= 0:
             raise ValueError("Number of dimensions must be greater 0! Received: %d" % (new_ndim,))
         self._ndim = new_ndim
+        # the derived quantity belongs to the old number of dimensions: convert again when it is asked for
+        if self._given == "cl":
+            self._sigma = None
+        elif self._given == "sigma":
+            self._cl = None
 
     @property
     def sigma_string(self):
